@@ -167,7 +167,10 @@ def gradient_event(n, mode, sampling, lazy):
         g = (gx + 1j * gy).astype(np.complex64)[None]
         if lazy:
             import dask.array as da
-            g = da.from_array(g, chunks=(1, nx, ny))
+            # the lazy input may be chunked along its base axes too (a centre-of-mass image of a 4D-STEM scan computed block-wise is)
+            cx = {"x_chunks": (nx // 2, nx - nx // 2), "xy_chunks": (nx // 3, nx - nx // 3)}.get(lazy, (nx,))
+            cy = {"y_chunks": (ny // 2, ny - ny // 2), "xy_chunks": (ny - 2, 2)}.get(lazy, (ny,))
+            g = da.from_array(g, chunks=((1,), cx, cy))
         from abtem.core.axes import OrdinalAxis
         im = abtem.Images(g, sampling=sampling, ensemble_axes_metadata=[OrdinalAxis(values=(0,))])
         out = im.integrate_gradient()
